@@ -43,7 +43,9 @@ def bool_l1(ints: Sequence[str]) -> List[str]:
             "not xs or xs[0] > 0", "b and x > 0", "b or x > 0", "x > 0 if b else y > 0", "(w := len(xs)) > 1 and w < 3",
             "x is y", "b is True", "[i for i in xs if i > 0] == xs", "{i for i in xs} == {1}",
             "{i: 0 for i in xs} == {}", "sorted(xs) == xs", "sorted(xs, reverse=True) == xs", "kwkeys(**{'k': x}, j=y) == ['j', 'k']",
-            "kwkeys(j=y, **{'k': x}) == []"]
+            "kwkeys(j=y, **{'k': x}) == []", "all(x > 0 for x in xs)", "len([x for x in xs]) > x + 5",
+            "str(all(i > 0 for i in xs)) == 'True'", "all(i for i in xs) and len(xs) > 2",
+            "any(10 // y > i for i in xs)"]
     return out
 
 
